@@ -56,6 +56,8 @@ use crate::{
 };
 
 pub(super) mod computation_graph;
+#[cfg(feature = "verif")]
+pub use computation_graph::verif_api;
 pub(super) mod guard;
 pub(super) mod yielder;
 
